@@ -374,7 +374,8 @@ def main(argv=None):
     hs = mod.harnesses(tier)
     if args.only:
         hs = [h for h in hs if h.name == args.only]
-    budget = args.budget or getattr(mod, "BUDGET", {}).get(tier, 240 if tier == "quick" else 1500)
+    budget = args.budget or float(os.environ.get("VERIF_BUDGET", 0)) or \
+        getattr(mod, "BUDGET", {}).get(tier, 240 if tier == "quick" else 900)
     deadline = time.time() + budget
     ctx = mp.get_context("spawn")
     aggs = {}
